@@ -110,6 +110,58 @@ def gcPass (now : Int) (t : Table) : Table :=
       let r' := scrubRow t.schema (gcRow now t.schema r)
       if r'.fams.isEmpty then none else some r' }
 
+/-! #### A pass interleaved with client writes
+
+`table.gc` releases the table lock after every `gcLockReversalPeriod`-th visited row; a client
+write can run exactly there.  The pass iterates the keys present when it started, re-reads each row
+under the lock before collecting it, defers the deletion of rows it emptied to the end of the pass
+and re-checks them there. -/
+
+structure GcwState where
+  rows : Rows
+  emptied : List Bytes := []
+  writes : List (Bytes × List Mutation)
+  sts : List Bool := []
+  visited : Nat := 0
+
+/-- collect one row as stored now: `none` when it is left without cells -/
+def gcStored (now : Int) (s : Schema) (rows : Rows) (k : Bytes) : Option (Option Row) :=
+  match rows.get k with
+  | none => none
+  | some r =>
+    let r' := scrubRow s (gcRow now s r)
+    some (if r'.fams.isEmpty then none else some r')
+
+def gcVisit (now : Int) (s : Schema) (st : GcwState) (k : Bytes) : GcwState :=
+  let st1 : GcwState :=
+    match gcStored now s st.rows k with
+    | none => st
+    | some none => { st with emptied := st.emptied ++ [k] }
+    | some (some r') => { st with rows := st.rows.put r' }
+  let n := st1.visited + 1
+  if n % Generated.gcLockReversalPeriod = 0 then
+    match st1.writes with
+    | [] => { st1 with visited := n }
+    | (wk, ms) :: ws =>
+      match mutateRow s now st1.rows wk ms with
+      | none => { st1 with visited := n, writes := ws, sts := st1.sts ++ [false] }
+      | some rows => { st1 with visited := n, writes := ws, sts := st1.sts ++ [true], rows := rows }
+  else { st1 with visited := n }
+
+def gcFinish (now : Int) (s : Schema) (rows : Rows) (k : Bytes) : Rows :=
+  match gcStored now s rows k with
+  | none => rows
+  | some none => rows.delete k
+  | some (some r') => rows.put r'
+
+/-- The pass with the given writes arriving at successive lock reversals; returns the table and
+    the ok/error flag of each write that got to run. -/
+def gcInterleaved (now : Int) (t : Table) (writes : List (Bytes × List Mutation)) :
+    Table × List Bool :=
+  if t.schema.all (·.2.isNone) then (t, []) else
+  let st := (t.rows.map (·.key)).foldl (gcVisit now t.schema) { rows := t.rows, writes := writes }
+  ({ t with rows := st.emptied.foldl (gcFinish now t.schema) st.rows }, st.sts)
+
 /-- The quiescence test at the top of `table.gc` (`force = false`). -/
 def shouldGC (lastWrite lastRead realNow : Int) : Bool :=
   !(lastWrite == 0 || decide (realNow - lastWrite < Generated.quiesceNanos)
